@@ -3,6 +3,7 @@ import Driver.Suites.Blocks
 import Driver.Suites.Request
 import Driver.Suites.Readpath
 import Driver.Suites.WQ
+import Driver.Suites.Cache
 /-! Table of suites known to the driver.  One line per suite (merge=union friendly). -/
 namespace Driver
 def registry : List Suite := [
@@ -10,5 +11,6 @@ def registry : List Suite := [
   Suites.Request.suite,
   Suites.Readpath.suite,
   Suites.WQ.suite,
+  Suites.Cache.suite,
 ]
 end Driver
